@@ -125,7 +125,54 @@ theorem insert_keeps (ns : List Name) (segs : List Name) (maxlen : Nat) (r : Nam
     (∀ n ∈ ns, n ∈ insertName ns r) ∧ r ∉ ns ∧ (insertName ns r).length = ns.length + 1 := by
   refine ⟨fun n hn => List.mem_cons_of_mem _ hn, (flatname_fresh segs ns maxlen r h).1, rfl⟩
 
-/-! ### Non-vacuity: a designer who already used `i0_a` and `i0_a_` -/
+/-- **Names invented in one batch** (the members of a flattened bundle, the elements of an array, the instances of an
+    instance bundle) never coincide with a name already in the module *nor with each other*, and nothing that was in the
+    namespace leaves it: the namespace afterwards is the invented names on top of the old one. -/
+theorem inventAll_spec (maxlen : Nat) : ∀ (batch : List (List Name)) (ns ns' rs : List Name),
+    inventAll ns maxlen batch = some (ns', rs) →
+    ns' = rs.reverse ++ ns ∧ rs.length = batch.length ∧ (∀ r ∈ rs, r ∉ ns) ∧ rs.Nodup
+  | [], ns, ns', rs, h => by
+    simp only [inventAll, Option.some.injEq, Prod.mk.injEq] at h
+    obtain ⟨rfl, rfl⟩ := h
+    simp
+  | segs :: rest, ns, ns', rs, h => by
+    simp only [inventAll] at h
+    cases hf : flatname segs ns maxlen with
+    | none => simp [hf] at h
+    | some r =>
+      simp only [hf] at h
+      cases hr : inventAll (insertName ns r) maxlen rest with
+      | none => simp [hr] at h
+      | some p =>
+        obtain ⟨ns₂, rs₂⟩ := p
+        simp only [hr, Option.some.injEq, Prod.mk.injEq] at h
+        obtain ⟨rfl, rfl⟩ := h
+        obtain ⟨h1, h2, h3, h4⟩ := inventAll_spec maxlen rest (insertName ns r) ns₂ rs₂ hr
+        have hfresh := (flatname_fresh segs ns maxlen r hf).1
+        refine ⟨?_, by simp [h2], ?_, ?_⟩
+        · rw [h1]; simp [insertName]
+        · intro x hx
+          rcases List.mem_cons.mp hx with rfl | hx
+          · exact hfresh
+          · exact fun hin => h3 x hx (List.mem_cons_of_mem _ hin)
+        · refine List.nodup_cons.mpr ⟨fun hin => h3 r hin (List.mem_cons_self ..), h4⟩
+
+/-- … so a namespace without duplicates stays without duplicates, whatever the designer called things. -/
+theorem inventAll_nodup (maxlen : Nat) (batch : List (List Name)) (ns ns' rs : List Name) (hns : ns.Nodup)
+    (h : inventAll ns maxlen batch = some (ns', rs)) : ns'.Nodup ∧ ∀ n ∈ ns, n ∈ ns' := by
+  obtain ⟨h1, _, h3, h4⟩ := inventAll_spec maxlen batch ns ns' rs h
+  subst h1
+  refine ⟨?_, fun n hn => List.mem_append_right _ hn⟩
+  rw [List.nodup_append]
+  refine ⟨List.pairwise_reverse.mpr (List.Pairwise.imp (fun h => Ne.symm h) h4), hns, ?_⟩
+  intro a ha b hb hab
+  subst hab
+  exact h3 a (List.mem_reverse.mp ha) hb
+
+/-! ### Non-vacuity: two members `x`, `x_` of bundle `b` next to a designer's `b_x`; a designer who already used `i0_a` and `i0_a_` -/
+example : inventAll ["b_x".toList, "s".toList] 511 [["b".toList, "x".toList], ["b".toList, "x_".toList]]
+    = some (["b_x__".toList, "b_x_".toList, "b_x".toList, "s".toList], ["b_x_".toList, "b_x__".toList]) := by decide
+
 example : flatname ["i0".toList, "a".toList] ["i0_a".toList, "x".toList, "i0_a_".toList] = some "i0_a__".toList := by
   decide
 
